@@ -183,11 +183,11 @@ type KindInfo struct {
 	Groups Group
 	Weight int
 	// slots
-	Slots   string // one letter per string slot: S safe, U unsafe, N neutral (neither claimed)
-	Args    bool // takes printf args
-	NInts   []int // upper bounds of int slots
-	Tags    bool
-	build   func(n *Node, kids, hid []error) error
+	Slots string // one letter per string slot: S safe, U unsafe, N neutral (neither claimed)
+	Args  bool   // takes printf args
+	NInts []int  // upper bounds of int slots
+	Tags  bool
+	build func(n *Node, kids, hid []error) error
 }
 
 var kinds [NumKinds]KindInfo
@@ -203,7 +203,13 @@ func (k Kind) String() string { return kinds[k].Name }
 
 // code maps a drawn int to a gRPC code: the 16 predefined non-OK codes and a
 // few application-defined ones above them.
-func code(n int) codes.Code { return codes.Code(1 + n%20) }
+func code(n int) codes.Code {
+	if n == 20 {
+		// only WrapWithGrpcCode draws this: an explicitly attached OK
+		return codes.OK
+	}
+	return codes.Code(1 + n%20)
+}
 
 // Code is code() for other packages.
 func Code(n int) codes.Code { return code(n) }
@@ -401,7 +407,7 @@ func init() {
 		build: func(n *Node, k, hid []error) error { return errors.CombineErrors(k[0], hid[0]) }})
 	def(WHTTP, KindInfo{Name: "exthttp.WrapWithHTTPCode", Arity: Wrap, Groups: GLib | GAnnot, NInts: []int{600}, Weight: 3,
 		build: func(n *Node, k, _ []error) error { return exthttp.WrapWithHTTPCode(k[0], n.N[0]) }})
-	def(WGrpcCode, KindInfo{Name: "extgrpc.WrapWithGrpcCode", Arity: Wrap, Groups: GLib | GGrpc | GAnnot, NInts: []int{20}, Weight: 3,
+	def(WGrpcCode, KindInfo{Name: "extgrpc.WrapWithGrpcCode", Arity: Wrap, Groups: GLib | GGrpc | GAnnot, NInts: []int{21}, Weight: 3,
 		build: func(n *Node, k, _ []error) error { return extgrpc.WrapWithGrpcCode(k[0], code(n.N[0])) }})
 	def(WStatusWrap, KindInfo{Slots: "S", Name: "crdbstatus.WrapErr", Arity: Wrap, Groups: GLib | GGrpc | GStack | GAnnot, NInts: []int{20}, Weight: 2,
 		build: func(n *Node, k, _ []error) error { return crdbstatus.WrapErr(code(n.N[0]), n.S[0].V, k[0]) }})
